@@ -54,7 +54,8 @@ def stats(out):
 def run(chk, rng, replay=None):
     ok, info = proof_stage(chk, MODULES)
     cases, out, ans, crashed = run_calls(chk, rng, replay, 2500, 100000)
-    fails = [(c, s, a) for (c, s), a in zip(out, ans) if a.startswith("fail") and a[5:] in OWN]
+    fails = [(c, s, "fail " + ",".join(w for w in a[5:].split(",") if w in OWN)) for (c, s), a in zip(out, ans)
+             if a.startswith("fail") and any(w in OWN for w in a[5:].split(","))]
     other = [(c, s, a) for (c, s), a in zip(out, ans) if not a.startswith(("ok", "fail"))]
     per_kind = {}
     for (c, s), a in zip(out, ans):
